@@ -106,6 +106,55 @@ func (c *Ctx) resolveByShape(spec string) *ssa.Function {
 	return nil
 }
 
+// resolveByBareName: the function was turned into a method (or a method into a function, or moved to another receiver):
+// the unique function or method of the anchor's package that still has the anchor's bare name.
+func (c *Ctx) resolveByBareName(spec string) *ssa.Function {
+	i := strings.Index(spec, ":")
+	path := pkgPathOf(spec[:i])
+	name := spec[i+1:]
+	if j := strings.LastIndex(name, ")."); j >= 0 {
+		name = name[j+2:]
+	}
+	var cands []*ssa.Function
+	for _, fn := range c.P.ModFns {
+		if fnPkgPath(fn) != path || fn.Parent() != nil || fn.Synthetic != "" || fn.Name() != name {
+			continue
+		}
+		if obj := fn.Object(); obj == nil || obj.Exported() {
+			continue
+		}
+		// of a value method and its pointer wrapper only the declared one is not synthetic; instantiations excluded
+		if len(fn.TypeArgs()) > 0 {
+			continue
+		}
+		cands = append(cands, fn)
+	}
+	if len(cands) == 1 {
+		return cands[0]
+	}
+	return nil
+}
+
+// resolveByColumn: a static parse function whose name and signature both changed is still the one function of its
+// package that asks for its file's own column.
+func (c *Ctx) resolveByColumn(spec string) *ssa.Function {
+	sh, ok := anchorShapes[spec]
+	if !ok || sh.reads == "" {
+		return nil
+	}
+	path := pkgPathOf(spec[:strings.Index(spec, ":")])
+	var cands []*ssa.Function
+	for _, fn := range c.P.ModFns {
+		if fnPkgPath(fn) == path && fn.Parent() == nil && fn.Synthetic == "" && readsColumn(fn, sh.reads) {
+			cands = append(cands, fn)
+		}
+	}
+	if len(cands) == 1 {
+		return cands[0]
+	}
+	return nil
+}
+
 // readsColumn: fn asks its csv.File for the named column.
 func readsColumn(fn *ssa.Function, col string) bool {
 	for _, b := range fn.Blocks {
@@ -129,7 +178,13 @@ func (c *Ctx) anchor(spec string) *ssa.Function {
 	}
 	f := c.P.Func(spec)
 	if f == nil {
+		f = c.resolveByBareName(spec)
+	}
+	if f == nil {
 		f = c.resolveByShape(spec)
+	}
+	if f == nil {
+		f = c.resolveByColumn(spec)
 	}
 	if c.anchorMemo == nil {
 		c.anchorMemo = map[string]*ssa.Function{}
